@@ -26,6 +26,13 @@ Spec == Init /\ [][Next]_vars
 \* ----- the listed property -------------------------------------------------------
 \* known deviations of the legacy receiver (recorded in known_findings.json)
 LegacyKnown == {"delivered_with_crc", "delivery_without_start_marker", "legacy_fragment_delivered"}
+\* the closed form of the monitor (and of the automaton) over a run of plain bytes equals the byte-by-byte fold, from every reachable
+\* state, for every run up to length 4 over the data bytes
+Runs == UNION {[1..k -> Data] : k \in 0..4}
+MonRunSame == \A r \in Runs : (\A i \in 1..Len(r) : Plain(CtxOf(name), r[i])) =>
+                 /\ MonRunCx(CtxOf(name), name = "legacy", m, r, cap) = MonFold(CtxOf(name), name = "legacy", m, r, 1, cap)
+                 /\ LET a == ImplRun(CtxOf(name), name = "legacy", s, r, cap)  b == ImplFold(CtxOf(name), name = "legacy", s, r, 1, cap, TRUE)
+                    IN a.allzero => (b.allzero /\ a.s = b.s)
 Sound == IF name = "legacy" THEN err \subseteq LegacyKnown ELSE err = {}
 Safety == Len(s.line) <= cap - 1
 =============================================================================
